@@ -10,6 +10,7 @@ import shutil
 
 import common as C
 import gomod
+import gogen
 import k4
 import c07
 
@@ -19,9 +20,10 @@ class Gen:
         self.r = r
         self.k = 100
 
-    def fresh(self):
-        self.k += 1
-        return self.k
+    def fresh(self, kind="a"):
+        """constants are drawn so that conditions `acc < K` take both truth values along a run"""
+        r = self.r
+        return {"a": r.randrange(1, 40), "r": r.randrange(0, 1000), "c": r.randrange(0, 120)}[kind]
 
     def stmts(self, depth, in_loop, n=None):
         n = self.r.randrange(0, 4) if n is None else n
@@ -33,7 +35,7 @@ class Gen:
         if c < 4 or depth <= 0 and c < 8:
             return ("a", self.fresh())
         if c == 4:
-            return ("r", self.fresh())
+            return ("r", self.fresh("r"))
         if c == 5 and in_loop:
             return ("brk",)
         if c == 6 and in_loop:
@@ -43,10 +45,10 @@ class Gen:
         if c in (7, 8, 9):
             els = self.stmts(depth - 1, in_loop) if r.random() < 0.5 else []
             if els and r.random() < 0.3:
-                els = [("if", self.fresh(), self.stmts(depth - 1, in_loop), self.stmts(depth - 1, in_loop) if r.random() < 0.5 else [])]   # else if
-            return ("if", self.fresh(), self.stmts(depth - 1, in_loop), els)
+                els = [("if", self.fresh("c"), self.stmts(depth - 1, in_loop), self.stmts(depth - 1, in_loop) if r.random() < 0.5 else [])]   # else if
+            return ("if", self.fresh("c"), self.stmts(depth - 1, in_loop), els)
         if c == 10:
-            return ("loop", self.fresh(), self.stmts(depth - 1, True))
+            return ("loop", self.fresh("c"), self.stmts(depth - 1, True))
         return ("blk", self.stmts(depth - 1, in_loop))
 
 
@@ -183,6 +185,8 @@ def show(t):
     raise ValueError(t)
 
 
+PVALS = [0, 20, 45, 70, 100, 130]
+
 MESSAGES = {"return-in-unsupported-position": "return in unsupported position",
             "break/continue-in-unsupported-position": "break/continue in unsupported position",
             "early-return-in-if-with-an-else-branch": "early return in if with an else branch"}
@@ -194,20 +198,23 @@ def run(seed, nfuncs, scratch):
     funcs = []
     for i in range(nfuncs):
         g = Gen(r)
-        body = g.stmts(r.randrange(1, 4), False, n=r.randrange(1, 5)) + [("r", g.fresh())]
+        body = g.stmts(r.randrange(1, 4), False, n=r.randrange(1, 5)) + [("r", g.fresh("r"))]
         funcs.append(("s%d" % i, body))
     src = ["package p", ""]
     line_of = {}
     for name, body in funcs:
         start = len(src) + 1
-        src.append("func %s() uint64 {" % name)
-        src.append("\tvar acc uint64 = 0")
+        src.append("func %s(p uint64) uint64 {" % name)
+        src.append("\tvar acc uint64 = p")
         src += go_src(body, 1)
         src.append("}")
         src.append("")
         line_of[name] = (start, len(src))
     root = os.path.join(scratch, "tr")
-    gomod.write_module(root, {"p": {"p.go": "\n".join(src)}})
+    runner = [gogen.PRINTER, "func RunAll() {"] + ['\tcall("%s#%d", func() string { return show(%s(%d)) })' % (n, pv, n, pv)
+                                                   for n, b in funcs if "loop" not in tokens(b) for pv in PVALS] + ["}"]
+    gomod.write_module(root, {"p": {"p.go": "\n".join(src), "run.go": "\n".join(runner)},
+                              "cmd": {"main.go": "package main\n\nimport \"example.com/m/p\"\n\nfunc main() {\n\tp.RunAll()\n}\n"}})
     rc, gerr, text = k4.translate(root)
     if text is None:
         raise C.Infra("trcorr: goose wrote nothing: " + gerr[-500:])
@@ -231,8 +238,23 @@ def run(seed, nfuncs, scratch):
                 got = show(to_tgt(b))
             except (ValueError, IndexError) as ex:
                 got = "unreadable: %s" % ex
-            if got != m and bad is None:
+            if got != m and (bad is None or bad["what"] != "values differ"):
+                first = bad
                 bad = {"what": "structure differs", "function": name, "go": "\n".join(src[lo - 1:hi]), "model": m, "goose": got, "emitted": k4.emitted_def(text, name)}
+                if "loop" not in tokens(body):
+                    # is the difference a difference in meaning? run the skeleton natively and in the interpreter
+                    nat, _ = k4.native(root)
+                    glvs = [k4.unhex(x) for x in k4.gl_session(text, ["eval %s u64:%d" % (name, pv) for pv in PVALS])[1:]]
+                    for pv, glv in zip(PVALS, glvs):
+                        want = (nat or {}).get("%s#%d" % (name, pv))
+                        if want is not None and glv != "value " + want:
+                            bad["what"] = "values differ"
+                            bad["argument"] = pv
+                            bad["native_go"] = want
+                            bad["gooselang"] = glv
+                            break
+                if bad["what"] != "values differ" and first is not None:
+                    bad = first
         else:
             stats["rejected"] += 1
             msgs = [msg for cat, msg, f, ln in errs if ln is not None and lo <= ln <= hi]
